@@ -202,6 +202,7 @@ class Commute(Relation):
             'cmeta': st.sampled_from([None, {'include': False}, {},
                                       {'text': 'cmp', 'include': True}]),
             'cvisual': st.sampled_from([None, {'color': 'green'}, {}]),
+            'cvia': st.sampled_from(['ctor', 'assign']),
             'inc1': st.sampled_from([None, None, False, True]),
             'region': _cluster(G.compound(leaf, max_depth=2,
                                           with_meta=False)),
@@ -212,7 +213,6 @@ class Commute(Relation):
         from regions import (CompoundPixelRegion, CompoundSkyRegion, PixCoord,
                              RegionMeta, RegionVisual)
         rs = dict(sp['region'])
-        wcs = S.build_wcs(sp['wcs'])
         # keep everything within a few hundred pixels of CRPIX
         cr = sp['wcs']['crpix']
         rs = _shift_to(rs, cr)
@@ -225,10 +225,19 @@ class Commute(Relation):
             kw['meta'] = RegionMeta(sp['cmeta'])
         if sp['cvisual'] is not None:
             kw['visual'] = RegionVisual(sp['cvisual'])
-        comp = CompoundPixelRegion(a, b, op, **kw) if kw else op(a, b)
+        if kw and sp.get('cvia') == 'assign':
+            # made by the operator; its own meta / visual ASSIGNED afterwards
+            comp = op(a, b)
+            comp.bounding_box
+            for k_, v_ in kw.items():
+                setattr(comp, k_, v_)
+        else:
+            comp = CompoundPixelRegion(a, b, op, **kw) if kw else op(a, b)
         ctx.label('op:' + rs['op'], W.rot_family(sp['wcs']),
                   'cmeta:' + ('none' if sp['cmeta'] is None else 'given'))
         want_meta, want_visual = dict(comp.meta), dict(comp.visual)
+        wcs = S.build_wcs(sp['wcs'],
+                          warm=lambda x: comp.to_sky(x).to_pixel(x))
         # ---- to_sky
         sky = comp.to_sky(wcs)
         ctx.check(isinstance(sky, CompoundSkyRegion) and sky.operator is op,
